@@ -98,17 +98,35 @@ def body(case, M):
         if any(r.draws for r in M.rngs): M.note('drew_from_seed_stream')
         M.note('no_witness')
     else:
-        import copy
-        st0 = np.random.get_state()
-        args, kw = mk(); r1 = fn(*args, seed=7, **kw)
-        st1 = np.random.get_state()
-        same_state = st0[0] == st1[0] and np.array_equal(st0[1], st1[1]) and st0[2:] == st1[2:]
-        M.oblige('ret:global_stream_untouched_when_seeded', bool(same_state))
-        args, kw = mk(); r2 = fn(*args, seed=np.random.RandomState(7), **kw)
-        args, kw = mk(); r3 = fn(*args, seed=7, **kw)
+        # replay on the real code: (a) in generator-object mode the explored path itself (scripted draws through the caller's
+        # generator), watching numpy's global state; (b) a search over integer seeds for a run that touches the global stream
+        # or is not reproducible (the branch that misbehaves may need a particular draw sequence)
+        def gstate(): return np.random.get_state()
+        def same(a, b): return a[0] == b[0] and np.array_equal(a[1], b[1]) and a[2:] == b[2:]
         eqr = lambda a, b: all(np.allclose(np.asarray(x, dtype=float), np.asarray(y, dtype=float), equal_nan=True) for x, y in zip(flat(a), flat(b)))
-        M.oblige('ret:integer_seed_builds_one_generator', bool(eqr(r1, r2)))
-        M.oblige('ret:generator_object_is_used_as_given', bool(eqr(r1, r3)))
+        ok_state = ok_int = ok_obj = True
+        if case['mode'] == 'rs':
+            try:
+                r = M.rng(stream='local')
+                if r.script:
+                    st0 = gstate(); args, kw = mk()
+                    try: fn(*args, seed=r, **kw)
+                    except Exception: pass
+                    ok_state = ok_state and same(st0, gstate())
+            except Exception: pass
+        for sd in [7] + list(range(16)):
+            try:
+                st0 = gstate()
+                args, kw = mk(); r1 = fn(*args, seed=sd, **kw)
+                ok_state = ok_state and same(st0, gstate())
+                args, kw = mk(); r2 = fn(*args, seed=np.random.RandomState(sd), **kw)
+                args, kw = mk(); r3 = fn(*args, seed=sd, **kw)
+                ok_int = ok_int and bool(eqr(r1, r2)); ok_obj = ok_obj and bool(eqr(r1, r3))
+            except Exception:
+                if sd == 7: raise
+        M.oblige('ret:global_stream_untouched_when_seeded', bool(ok_state))
+        M.oblige('ret:integer_seed_builds_one_generator', bool(ok_int))
+        M.oblige('ret:generator_object_is_used_as_given', bool(ok_obj))
 
 
 def flat(x):
